@@ -28,7 +28,9 @@ PACKS = {"plain": dict(), "sym": dict(sym=True), "inf": dict(inf=True), "syminf"
          "two": dict(expand2=True), "twosym": dict(expand2=True, sym=True),
          "twocycle": dict(expand2=True, cycle=True), "twosymcycle": dict(expand2=True, cycle=True, sym=True),
          # a letter swap whose one-child rules are declared non-equivalences: classes share labels without being equivalent
-         "symmarked": dict(sym_marked=True)}
+         "symmarked": dict(sym_marked=True),
+         # the inferral step from the redundant start class to the minimal class declared a non-equivalence
+         "infmarked": dict(inf=True, inf_marked=True), "infmarkedsym": dict(inf=True, inf_marked=True, sym=True)}
 ABC3 = [(("ab", "cc"), "abc"), (("bc", "aa"), "abc"), (("ca", "bb"), "abc"), (("ba", "cc"), "abc"), (("ac", "bb"), "abc"),
         (("cc",), "abc"), (("aa",), "abc"), (("bb",), "abc"), (("b",), "abc"), (("a",), "abc")]
 STARTS = [(("aa",), "ab"), (("bb",), "ab"), (("ab",), "ab"), (("ba",), "ab"), (("aba",), "ab"), (("bab",), "ab"), (("aa", "bb"), "ab"),
@@ -65,10 +67,18 @@ def unroll_pairs():
     return out
 
 
+# the same with start classes that have a prefix (not the representatives of their equivalence classes): the second search
+# backtracks at a pair of which exactly one label already has a rule
+TWO3_FORCED_PREFIXED = [((("aab", "bca"), "twosym", "c"), (("acb", "bba"), "two", "c")),
+                        ((("aaa", "bba", "cbb"), "twosym", "c"), (("aab", "bbb", "caa"), "twocycle", "c")),
+                        ((("abc", "bcc", "ccc"), "twocycle", "c"), (("acc", "bac", "ccc"), "twosym", "c"))]
+
+
 def two3_pairs():
     from ..universes.words import swap_word
 
     out = [(((P, "abc"), pk1), ((Q, "abc"), pk2)) for (P, pk1), (Q, pk2) in TWO3_FORCED]
+    out += [(((P, "abc", pre1), pk1), ((Q, "abc", pre2), pk2)) for (P, pk1, pre1), (Q, pk2, pre2) in TWO3_FORCED_PREFIXED]
     for P in TWO3:
         Q = tuple(sorted(swap_word(p) for p in P))
         for pk1, pk2 in (("twosym", "two"), ("two", "twosym"), ("two", "two"), ("twosym", "twosym")):
@@ -456,7 +466,7 @@ def run(tier: str, seed: int, pid="C12") -> int:
     run_ = Run(pid, tier, seed)
     rnd = random.Random(seed + 12)
     if pid == "C12":
-        pool = [(s, pk, fl) for s in STARTS[: (14 if tier == "quick" else 20)] for pk in PACKS if pk not in ("symcycle", "symmarked") and not pk.startswith("two") for fl in ("default", "forget", "forest")]
+        pool = [(s, pk, fl) for s in STARTS[: (14 if tier == "quick" else 20)] for pk in PACKS if pk not in ("symcycle", "symmarked", "infmarked", "infmarkedsym") and not pk.startswith("two") for fl in ("default", "forget", "forest")]
         pairs = [(a, b) for a in pool for b in pool if a[0][1] == b[0][1] or True]
         rnd.shuffle(pairs)
         pairs = pairs[: (260 if tier == "quick" else 6000)]
@@ -508,17 +518,22 @@ def run(tier: str, seed: int, pid="C12") -> int:
         run_.add_tlc(r, "MC_Bisim: greedy pairing = search over all permutations; result is a bisimulation, reflexive, symmetric")
         if r.status == "violated":
             raise tlc.MachineryError("the lemma of Bisim.tla fails:\n" + r.out[-2000:])
-        items = [(s, pk) for s in STARTS[: (12 if tier == "quick" else 20)] for pk in PACKS if pk not in ("symcycle", "symmarked") and not pk.startswith("two")]
+        items = [(s, pk) for s in STARTS[: (12 if tier == "quick" else 20)] for pk in PACKS if pk not in ("symcycle", "symmarked", "infmarked", "infmarkedsym") and not pk.startswith("two")]
         pairs = [(a, b, v) for a in items for b in items for v in ("plain", "eqpath")]
         rnd.shuffle(pairs)
         pairs = pairs[: (420 if tier == "quick" else 6000)]
         forced = [((STARTS[i], pk1), (STARTS[j], pk2), v) for i, j in ((0, 1), (2, 3), (4, 5), (0, 0), (6, 6), (7, 8))
-                  for pk1 in PACKS if not pk1.startswith("two") and pk1 != "symmarked" for pk2 in PACKS if not pk2.startswith("two") and pk2 != "symmarked" for v in ("plain", "eqpath")]
+                  for pk1 in PACKS if not pk1.startswith("two") and "marked" not in pk1 for pk2 in PACKS if not pk2.startswith("two") and "marked" not in pk2 for v in ("plain", "eqpath")]
         abc = [((a, pk1), (b, pk2), v) for a in ABC3 for b in ABC3 for pk1 in ("plain", "symcycle") for pk2 in ("plain", "symcycle") for v in ("plain", "eqpath")]
         two3 = [(a, b, v) for a, b in two3_pairs() for v in ("plain", "eqpath")]
         # the equivalence-path finder with non-equivalent classes sharing labels on one side only (D19 was found there)
         for P in (("ab", "ba"), ("aa", "bb"), ("a",), ("aa", "ab", "bb"), ("aba", "bab")):
             for pk1, pk2 in (("symmarked", "sym"), ("sym", "symmarked"), ("symmarked", "symmarked")):
+                two3.append((((P, "ab"), pk1), ((P, "ab"), pk2), "eqpath"))
+        # ... and a start class joined to its representative by a non-equivalence on one side only: the path from the *start
+        # class* (not from the representative) has to be compared
+        for P in (("aa",), ("ab",), ("aa", "bb"), ("aba",)):
+            for pk1, pk2 in (("infmarked", "plain"), ("plain", "infmarked"), ("infmarked", "inf"), ("infmarkedsym", "sym"), ("infmarked", "infmarked")):
                 two3.append((((P, "ab"), pk1), ((P, "ab"), pk2), "eqpath"))
         if tier == "thorough":
             import itertools as it
